@@ -359,11 +359,11 @@ pub fn run(ctx: &mut Ctx, replay: Option<&Value>) {
         }
         return;
     }
-    let max_len = if ctx.tier_thorough { 12 } else { 9 };
+    let max_len = if ctx.tier_thorough { 12 } else if ctx.scale > 1 { 10 } else { 9 };
     exhaustive_strings(ctx, max_len);
     ctx.report.exhaustive = false;
     let mut rng = Rng::fork(ctx.seed, 0);
-    let rounds = ctx.cases.unwrap_or(if ctx.tier_thorough { 4000 } else { 300 }) as usize;
+    let rounds = ctx.count(300, 4000) as usize;
     structured(ctx, &mut rng, rounds);
     leeway_overflow(ctx);
 }
